@@ -7,6 +7,7 @@
       C03_all_sites     : forallb ctx_check sites = true
       C03_make_context  : mk_check_empty mk_empty_ops && mk_check_voidcall mk_voidcall_ops = true
       C03_custom_data   : cd_check cd_layout = true
+      C03_publish_after_save : forallb pub_check bodies = true
       C03_current_tree  : the conclusion of C03_ctx_check_sound for every pair of extracted sites
     are closed by vm_compute on the regenerated data.  Ctx/CtxAsmPinned.v is a committed snapshot
     used only for the Examples below. *)
@@ -190,6 +191,21 @@ Theorem C03_custom_data_disjoint : forall c te tv p eops vops,
 Proof. exact custom_data_disjoint. Qed.
 Print Assumptions C03_custom_data_disjoint.
 
+(** callbacks that make the suspended thread visible run only after its context has been saved:
+    [evs] is the source-ordered list of {publish-self, publish-other, switch-with-callback,
+    plain switch, ...} events the translator extracts from one non-callback function body of the
+    current tree.  If the checker accepts the body then along ANY sequence of its events (any
+    path, any number of loop iterations) the running thread is never visible to other workers
+    while its context is unsaved, it never publishes itself outside a callback, and it is never
+    suspended by a switch without callback; its only publications are those between the save and
+    the resume of a switch-with-callback, i.e. inside the callback. *)
+Theorem C03_callbacks_after_save : forall evs, pub_check evs = true ->
+  forall trace, Forall (fun e => In e evs) trace ->
+    safe_run (flat_map expand trace) (mkPst false false) = true /\
+    Forall (fun e => e <> PPubSelf /\ e <> PSwitchPlainThread) trace.
+Proof. exact pub_check_sound. Qed.
+Print Assumptions C03_callbacks_after_save.
+
 (* ------------------------------------------------------------------ *)
 (** * non-vacuity: the hypotheses are met by the sites of the pinned tree and by concrete states *)
 
@@ -284,3 +300,14 @@ Example rejects_lost_carve :
                    (Some (mkLin 1 0 (-1) 0)) (Some (mkLin 0 0 0 1)) true in
   cd_check c = false /\ In (10, 1, d_rsp0 - 16, d_rsp0 - 15) (diag_cd c).
 Proof. vm_compute. split; [reflexivity|left; reflexivity]. Qed.
+
+(** publication order: every switching body of the pinned tree is accepted; a body that puts the
+    running thread into the run queue and then switches without callback (the "local rotation
+    fast path") is rejected, and is unsafe in the model *)
+Example pinned_publish_accepted : forallb pub_check bodies = true /\ (3 <= length bodies)%nat.
+Proof. vm_compute. split; [reflexivity|repeat constructor]. Qed.
+
+Example rejects_publish_before_save :
+  pub_check [PPubSelf; PSwitchPlainThread; PSwitchCall 10] = false /\
+  safe_run (flat_map expand [PPubSelf; PSwitchPlainThread]) (mkPst false false) = false.
+Proof. vm_compute; split; reflexivity. Qed.
